@@ -5,9 +5,11 @@ PID = "C19"
 
 def check(tier, seed):
     q = tier == "quick"
-    return G.generic_check(PID, "exploration", tier, seed, coq=False,
-        rule='generated game collections (shared openings, duplicate games, transpositions, games cut by an illegal move) rendered as Simple (separated and unseparated), SAN and PGN (tags, comments, NAGs, nested variations, wrapped lines, all result markers); real books built with GOMAXPROCS 1, 2 and 16 for each format and compared with the expected positions and visit counts computed by replaying the games; every offered move legal, leading to the linked entry, offered once; a case = one book build',
-        streams=[dict(name='book_monitor', kind="monitor", shards=lambda t: 2 if t == "quick" else 8,
+    return G.generic_check(PID, "proof", tier, seed, coq=True,
+        rule='obligations: theorems of coq/properties/C19.v over BookModel.v (all interleavings of the per-line step lists; readers of the three formats) + source-site recogniser; correspondence: per-game addToBook steps from an independent replay and the real book entries checked by book_case_ok inside Coq (c19-cases); monitor: generated game collections (shared openings, duplicate games, transpositions, games cut by an illegal move) rendered as Simple (separated and unseparated), SAN and PGN (tags, comments, NAGs, nested variations, wrapped lines, all result markers); real books built with GOMAXPROCS 1, 2 and 16 for each format and compared with the expected positions and visit counts computed by replaying the games; every offered move legal, leading to the linked entry, offered once; a case = one book build',
+        streams=[dict(name="book_model_vs_engine", kind="coqcases", shards=lambda t: 2 if t == "quick" else 8,
+                      args=lambda t, s, sh, path: ["c19-cases", 3 if t == "quick" else 12, s * 1000 + 300 + sh, path], coq_timeout=3000),
+                 dict(name='book_monitor', kind="monitor", shards=lambda t: 2 if t == "quick" else 8,
                       args=lambda t, s, sh, path: ['c19-monitor', 4 if t == "quick" else 60, s * 1000 + sh])])
 
 
